@@ -368,6 +368,42 @@ def check(col, prog, tier, profile, fixture=None):
             for e in calls:
                 if (e.fn.get("resolved") or e.fn).get("def") not in fam:
                     okk = False
+        # ... and it is true exactly for the outcome `equal`: on every path, among the outcomes (less / equal / greater /
+        # unordered) the path's comparison facts leave possible, the answer is true for `equal` and for nothing else
+        Ie = I
+        q1, q2 = ("param", 1, Ie.names.get(1)), ("param", 2, Ie.names.get(2))
+
+        def opnd_e(p_):
+            return lambda x: x is not None and (x == p_ or x == ("ref", ("deref", p_)) or x == ("load", ("m0",), ("deref", p_)) or x == ("deref", p_))
+
+        keys_e = {lt.key: "lt", le.key: "le", gt.key: "gt", ge.key: "ge", pc.key: "partial_cmp"}
+        exact = bool(Ie.final_states)
+        saw_equal = False
+        for st in Ie.final_states:
+            oc = _outcomes(st, opnd_e(q1), opnd_e(q2), keys_e)
+            r = util.ret_term(st)
+            if r == mk_int(1):
+                tset = set(oc)
+            elif r == mk_int(0):
+                tset = set()
+            else:
+                tset = None
+                for e in st.event_list():
+                    if e.kind == "call" and e.res == r and (e.fn.get("resolved") or e.fn).get("def") in keys_e and keys_e[(e.fn.get("resolved") or e.fn).get("def")] != "partial_cmp" and len(e.args) >= 2:
+                        x, y = e.args[0], e.args[1]
+                        av = list(e.extra.get("argvals") or []) + [None, None]
+                        sset = set(_PRIM[keys_e[(e.fn.get("resolved") or e.fn).get("def")]])
+                        if (opnd_e(q1)(x) or opnd_e(q1)(av[0])) and (opnd_e(q2)(y) or opnd_e(q2)(av[1])):
+                            tset = oc & sset
+                        elif (opnd_e(q2)(x) or opnd_e(q2)(av[0])) and (opnd_e(q1)(y) or opnd_e(q1)(av[1])):
+                            tset = oc & {_FLIP[k_] for k_ in sset}
+            if tset is None or tset != (oc & {"E"}):
+                exact = False
+            saw_equal = saw_equal or "E" in (tset or set())
+        if okk and not (exact and saw_equal):
+            col.violation("X3" + sfx, "%s|exactly-equal" % fk(b), b.loc(), "== for f80 is not true exactly when the operands compare equal: some path answers true for a less/greater/unordered pair, or false for an equal one (e.g. `a <= b || b <= a` is true for every ordered pair)")
+        elif okk:
+            col.ok("X3" + sfx, b.loc(), "%s|exactly-equal" % fk(b), "true exactly for the outcome `equal` on every path", nontrivial=False)
         if okk:
             col.ok("X3" + sfx, b.loc(), "%s|numeric" % fk(b), "== is built from the numeric comparisons")
         else:
